@@ -13,7 +13,7 @@ INVS = {
     "C01": ["C01_Sound", "C01_NoStuck", "C01_Handles"],
     "C02": ["C02_Complete", "SpecTabOK"],
     "C06": ["C06_FirstBad", "C06_NoDiverge", "C06_NoFalseAccept", "C01_NoStuck", "SpecTabOK"],
-    "C04": ["C04_Behaviour"],
+    "C04": ["C04_Behaviour", "C04_Climb", "C04_ClimbSpec"],
 }
 
 
@@ -21,8 +21,8 @@ def population(ctx):
     s = ctx.seed
     if ctx.prop == "C04":
         if ctx.quick():
-            return ["-corpus", conf.CORPUS, "-nexpr", 150, "-nrand", 150]
-        return ["-corpus", conf.CORPUS, "-nexpr", 1500, "-nrand", 1500]
+            return ["-corpus", conf.CORPUS, "-nexpr", 150, "-nrand", 150, "-extra", 40]
+        return ["-corpus", conf.CORPUS, "-nexpr", 1500, "-nrand", 1500, "-extra", 80]
     if ctx.quick():
         return ["-corpus", conf.CORPUS, "-small-max", 3, "-small-slices", 24, "-small-slice", s % 24,
                 "-nrand", 220, "-ndp", 60, "-nctx", 80, "-nexpr", 40, "-nbig", 1, "-nopt", 30, "-nring", 20, "-extra", 30]
@@ -56,11 +56,11 @@ def run_driver(ctx, replay):
                              heap="3g", extra=["-continue"], extra_files={cfgname: os.path.join(ctx.work, cfgname)})
     require_clean(results)
     add_tlc_cov(ctx, results, "LRDriver over recorded dense tables, every input up to the bound (ConfDriver.tla)")
-    ngram = ncf = ninputs = ninputs_cf = ndecided = ninputs_decided = 0
+    ngram = ncf = ninputs = ninputs_cf = ndecided = ninputs_decided = nshape = ninputs_shape = 0
     cases = {c["id"]: c for c in json.load(open(os.path.join(out, "cases.json")))}
     for sf, res in results:
         obs = json.load(open(sf))
-        for m in re.finditer(r'<<"GRAMMAR", (\d+), (TRUE|FALSE), (\d+), (\d+), (TRUE|FALSE)>>', res.out):
+        for m in re.finditer(r'<<"GRAMMAR", (\d+), (TRUE|FALSE), (\d+), (\d+), (TRUE|FALSE), (TRUE|FALSE)>>', res.out):
             ngram += 1
             ninputs += int(m.group(3))
             if m.group(2) == "TRUE":
@@ -69,6 +69,9 @@ def run_driver(ctx, replay):
             elif m.group(5) == "TRUE":
                 ndecided += 1
                 ninputs_decided += int(m.group(3))
+            if m.group(6) == "TRUE":
+                nshape += 1
+                ninputs_shape += int(m.group(3))
         seen = set()
         for name, vars_, txt in res.violations:
             if name == "Report":
@@ -92,12 +95,15 @@ def run_driver(ctx, replay):
     ctx.cov["evaluations"] += ninputs
     ctx.cov["driver_level"] = {"grammars": ngram, "conflict_free": ncf, "inputs": ninputs, "inputs_on_conflict_free": ninputs_cf,
                                "conflicted_but_decided": ndecided, "inputs_on_decided": ninputs_decided,
+                               "operator_shape": nshape, "inputs_on_operator_shape": ninputs_shape,
                                "kmax": kmax, "limit_per_grammar": limit}
     ctx.cov["samples"] += conf.samples_from(shards, 3)
     if not replay:
         if prop == "C04":
             if ndecided < ctx.pick(60, 600):
                 raise Inconclusive("vacuity: only %d grammars with decided conflicts" % ndecided)
+            if nshape < ctx.pick(60, 600):
+                raise Inconclusive("vacuity: only %d grammars of operator shape (PrecClimb reference)" % nshape)
         elif ngram < ctx.pick(250, 4000) or ncf < ctx.pick(120, 2000):
             raise Inconclusive("vacuity: %d grammars, %d conflict-free" % (ngram, ncf))
     return ctx.cov["driver_level"]
